@@ -1,5 +1,5 @@
 SPECIFICATION Spec
-CONSTANTS Vals = {1, 2}  MaxMats = 2  NormVariant = "rowmajor"  SortVariant = "own_key"
+CONSTANTS Vals = {1, 2}  MaxMats = 2  AllFormatsUpTo = 1  NormVariant = "rowmajor"  SortVariant = "own_key"
 INVARIANT TypeOK
 INVARIANT NormalForm
 INVARIANT FormatIndependent
